@@ -136,7 +136,7 @@ def run(ctx: Ctx):
     ]
     for be in BACKENDS:
         cxx.std_model(be)
-    total = ctx.n(384, 6400)
+    total = ctx.n(640, 6400)
     shards = 16
     payloads = []
     for i in range(shards):
